@@ -45,6 +45,17 @@ def main(tier):
     optcorr.run(chk, "opt/pairs", pairs, cfg, differs, share=True)
     rep_atoms = [("subset", "2", "4"), ("subset", "4", "6"), ("subset", "2", "4", "6"), ("superset", "2"), ("rsubset", "2", "4"), ("all", ("ge", "2")), ("all", ("le", "4")), ("any", ("eq", "2")), ("any", ("ge", "4")), "empty"]
     optcorr.run(chk, "opt/repeated-atom", list(cases.repeat_shapes(rep_atoms)), cfg, differs, share=True)
+    # one set-valued element predicate OBJECT under two quantifiers of one tree (built with sharing), next to a partner the set
+    # algebra merges it with: (Q1(e) . Q2(partner)) op Q3(e) -- the answers of the original are taken before optimize runs
+    shared_elem = []
+    for e in (("in", "2", "4"), ("notin", "2", "4"), ("in", "2"), ("notin", "6")):
+        for partner in (("eq", "6"), ("ne", "6"), ("eq", "2"), ("in", "4", "6"), ("notin", "4")):
+            for q1, q2, q3 in itertools.product(("all", "any"), repeat=3):
+                for inner in ("and", "or"):
+                    for outer in ("and", "or", "xor"):
+                        shared_elem.append((outer, (inner, (q1, e), (q2, partner)), (q3, e)))
+                        shared_elem.append((outer, (q3, e), (inner, (q2, partner), (q1, e))))
+    optcorr.run(chk, "opt/shared-element-predicate", shared_elem, cfg, differs, share=True)
     optcorr.run(chk, "opt/random-shared", rnd, cfg, differs, share=True)
     evalcorr.run(chk, "eval/quantified", singles + nested[:60], values)
     chk.rule = (
